@@ -1,5 +1,5 @@
 BASELINE_OFF = ("cd /repo && GOFLAGS=-mod=mod go test -json -vet=off -count=1 -timeout 25m ./...")
-READY_FAMILIES = ["fam_coa", "fam_dhcp4", "fam_pppoesrv", "fam_antispoof", "fam_nat", "fam_pppfsm", "fam_qos", "fam_acct", "fam_rendezvous", "fam_keymaps", "fam_lifecycle"]  # lib/fam_<x>.py modules reviewed and merged by the lead
+READY_FAMILIES = ["fam_coa", "fam_dhcp4", "fam_pppoesrv", "fam_antispoof", "fam_nat", "fam_pppfsm", "fam_qos", "fam_acct", "fam_rendezvous", "fam_keymaps", "fam_lifecycle", "fam_failover", "fam_hasync", "fam_wire"]  # lib/fam_<x>.py modules reviewed and merged by the lead
 HOOK_COMMITS = ["verif hooks: pkg/allocator epoch tick for DistributedAllocator (build tag verif)"]
 FIX_COMMITS = ["c1b5c0f", "71a23ea", "b7bf76b", "da38f0a", "c6de14e", "fccc5fe", "bde8047"]
 NOTES = ("Every check: bin/check <id> --tier quick|thorough [--replay file]. Exit 0 held (KNOWN-FINDING lines for listed findings), "
